@@ -7,6 +7,7 @@ import re
 import vf
 import ddgen
 from checks import ddcommon
+from checks import c12scommon
 
 META = {
     "title": "Model counting is exact for every number type and with reused caches; the arbitrary-precision Natural (incl. its conversion to f64 and its text), Saturating<u64/u128> and the floating-point counting type F64 compute exactly resp. correctly rounded",
@@ -452,6 +453,55 @@ def run_dd_stage(ctx):
             "dd_distinct_nontrivial": dd_distinct}, dd_samples
 
 
+# --------------------------------------------------------------------------
+# Stage 3 (package C12s): SatCountCache objects KEPT in a table of the harness (`SATC <cacheid> ...`), cases with
+# snap=each, driver ocaml/c12s_main.ml: every call is replayed by the extracted sat_query over the extracted
+# model of the number type on the model's own copy of the cache object; value AND cache map must agree; the
+# epoch discipline (gc_count / reorder_count / node table) is checked between all consecutive snapshots.
+# --------------------------------------------------------------------------
+KEPT_RULE = ("stage 3 (kept caches, kinds bdd/bcdd/zbdd, snapshot after every operation): 2-3 SatCountCache objects per number "
+             "type kept in a table (cache_all for odd ids) and queried in turn (`SATC cacheid handle vars type`) with vars in "
+             "{n-3..n+1, n+3, 63, 64, n+70, 128, 1021, 1023, 1100} (vars below the number of levels included), interleaved with "
+             "gc / set_var_order / one adjacent level swap / add_vars / drop + gc + rebuild (node ids recycled while a cache still "
+             "maps them) / growth; satisfiable / valid; pick_cube_uniform on the kept F64 caches; samples of the 256 "
+             "three-variable functions counted with vars in 0..4; every value compared with the exact count of the value table "
+             "(vars < levels: whenever the function depends on at most vars variables), with the extracted model's value, and "
+             "the real cache map with the model's cache map after every call")
+KEPT_RELATION = ("C12: sat_count through a kept SatCountCache == exact count of the handle's value table == extracted sat_query "
+                 "(coq/DD/SatCount.v, DD/SatCache.v count_event) incl. the cache map; consecutive snapshots satisfy obs_ok_b; "
+                 "coq/Props/C12.v C12_cache_history_correct / _exact / _natural, C12_cache_obs_ok")
+
+
+def gen_kept_cases(ctx):
+    rng = random.Random(ctx.seed * 611953 + 121)
+    thorough = ctx.tier == "thorough"
+    cases = []
+    for kind in DD_KINDS:
+        for i in range(500 if thorough else 50):
+            cases.append(c12scommon.case_kept(f"kc-{kind}-{i}", kind, rng, rounds=rng.randrange(4, 10)))
+        for i in range(30 if thorough else 4):
+            cases.append(c12scommon.case_kept_small(f"ks-{kind}-{i}", kind, rng))
+        for i in range(40 if thorough else 4):
+            cases.append(c12scommon.case_uniform_kept(f"ku-{kind}-{i}", kind, rng, rounds=rng.randrange(3, 7), draws=200))
+    return cases
+
+
+def run_kept_stage(ctx):
+    before = dict(ctx.stats)
+    ok, bad, cases = c12scommon.run_stage(ctx, "C12", gen_kept_cases(ctx), ["C12"], KEPT_RELATION)
+    if ctx.stats.get("c12s_unresolved", 0) and not bad:
+        raise vf.CheckFailure(f"kept-cache stage: {ctx.stats['c12s_unresolved']} operations could not be resolved by the driver")
+    g = lambda k: int(ctx.stats.get(k, 0)) - int(before.get(k, 0))
+    return {"kept_cases": len(cases), "kept_cases_ok": ok, "kept_cases_bad": len(bad),
+            "kept_sat_queries_replayed": g("c12s_model_replayed"), "kept_cache_entries_compared": g("c12s_cache_entries"),
+            "kept_snapshot_pairs_checked": g("c12s_obs_checked"), "kept_epoch_changes": g("c12s_epoch_changes"),
+            "kept_queries_vars_below_levels": g("c12s_vars_below_levels"),
+            "kept_queries_vars_below_levels_determined": g("c12s_vars_below_levels_determined"),
+            "kept_satisfiable_valid_checked": g("c12s_satvalid"), "kept_pick_uniform_ops": g("c12s_pickunic"),
+            "kept_distinct_nontrivial": len({(h.split(" ", 1)[1], tuple(o)) for h, o in cases if len(o) >= 3})}, \
+        [{"case": h, "ops": o[:12] + ["..."]} for h, o in cases[:1]]
+
+
 def load_corpus():
     corpus_dir = os.path.join(vf.ROOT, "corpus", "C12")
     corpus = []
@@ -492,9 +542,14 @@ def run(ctx):
     dd_cov, dd_samples = run_dd_stage(ctx)
     ctx.samples = ctx.samples + dd_samples[:3]
     ctx.stats["distinct_nontrivial"] += dd_cov["dd_distinct_nontrivial"]
+    # stage 3: kept caches, per-call replay of the cache object
+    kept_cov, kept_samples = run_kept_stage(ctx)
+    ctx.samples = ctx.samples + kept_samples
+    ctx.stats["distinct_nontrivial"] += kept_cov["kept_distinct_nontrivial"]
+    dd_cov.update(kept_cov)
     vf.write_evidence(
         ctx, "proof",
-        rule=DD_RULE + "; stage 1 (number types): boundary-set operand pairs x shifts x conversions x text; integer conversions of all widths; f64 rounding limits; clone shapes; random 512-bit op sequences; sat_count-like accumulations; Saturating<u64/u128>/F64 sequences; each case run in the release and in the debug profile; a case is non-trivial when it has >= 3 ops; distinct = distinct op lists",
+        rule=DD_RULE + "; " + KEPT_RULE + "; stage 1 (number types): boundary-set operand pairs x shifts x conversions x text; integer conversions of all widths; f64 rounding limits; clone shapes; random 512-bit op sequences; sat_count-like accumulations; Saturating<u64/u128>/F64 sequences; each case run in the release and in the debug profile; a case is non-trivial when it has >= 3 ops; distinct = distinct op lists",
         checker_cmd="make -C coq Props/C12.vo (coqc 8.16.1, Flocq 4.1.0) + Print Assumptions audit (allow-list for the floating-point theorems, closedness of all others); ./check C12",
         extra_cov=dict({"cases_ok": ok, "cases_bad": len(bad), "cases_ok_debug_profile": okd, "cases_bad_debug_profile": len(badd),
                         "tier": ctx.tier}, **dd_cov),
@@ -509,6 +564,8 @@ def run(ctx):
 def replay(ctx, path):
     r = json.load(open(path))
     hdr = r.get("case_header", "")
+    if r.get("config") == "kept-cache":
+        return c12scommon.replay(ctx, r)
     if r.get("config") == POINTER_CFG:
         binp = build_pointer()
         _, drv = ddcommon.build_dd(ctx)
